@@ -133,6 +133,54 @@ def file_create_truncates(chk, fx, rule):
     chk.expect(create or (opened and trunc), rule, "write_to_file", "truncating-create", "File::create(path) or OpenOptions .. truncate(true)", {"File::create": create, "OpenOptions::open": len(opened), "truncate(true)": len(trunc)}, loc=C.fn_loc(h))
 
 
+def value_truncate(chk, fx, rule):
+    """Value::truncate hands the limit to the variant's own truncate unconditionally; the sequence kinds truncate their item /
+    fragment vectors with that limit (C11/C13: Truncate changes the items exactly as documented, for every kind of value)"""
+    chk.rule(rule, "Value::truncate = match self { Primitive(v) | Sequence(v) | PixelSequence(v) => v.truncate(limit) } with nothing before the match; "
+             "DataSetSequence / PixelFragmentSequence::truncate call items / fragments .truncate(limit)")
+    h = fx.method("dicom_core", "dicom_core::value::Value", "truncate")
+    body = H.peel(h["body"])
+    stmts = body[2] if H.kind(body) == "block" else []
+    tail = H.peel(body[3]) if H.kind(body) == "block" and body[3] is not None else body
+    arms = {}
+    if H.kind(tail) == "match" and H.path_of(H.peel(tail[2])) == "self":
+        for p, g, b, ln in H.match_arms(tail):
+            hd = H.pat_head(H.pat_alts(p)[0])
+            t = H.show(H.peel(b), 4)
+            arms[hd[1].split("::")[-1] if hd[0] == "variant" else "?"] = (t, g is not None)
+    want = {"Primitive": ("v.truncate(limit)", False), "Sequence": ("v.truncate(limit)", False), "PixelSequence": ("v.truncate(limit)", False)}
+    chk.expect(not stmts and arms == want, rule, "Value::truncate", "unconditional-dispatch", want, {"statements_before_match": len(stmts), "arms": arms}, loc=C.fn_loc(h))
+    for ty, field in (("dicom_core::value::DataSetSequence", "items"), ("dicom_core::value::fragments::PixelFragmentSequence", "fragments"), ("dicom_core::value::PixelFragmentSequence", "fragments")):
+        try:
+            hh = fx.method("dicom_core", ty, "truncate")
+        except Exception:
+            continue
+        t = H.show(H.peel(hh["body"]), 5)
+        chk.expect(t.replace("{", "").replace("}", "").strip().rstrip(";") == f"self.{field}.truncate(limit)", rule, ty.split("::")[-1] + "::truncate", "vector-truncate", f"self.{field}.truncate(limit)", t, loc=C.fn_loc(hh))
+
+
+def tag_range_inner(chk, fx, rule):
+    """TagRange::inner returns the range's own base tag; if it normalises, Group100 may only mask the group and Element100 only the
+    element (C15: the dictionary files each row under entry.tag.inner() and looks ranges up by the masked tag)"""
+    chk.rule(rule, "TagRange::inner: Single/Group100/Element100 -> the wrapped tag (Group100 may mask .0 only, Element100 .1 only, with 0xFF00)")
+    h = fx.method("dicom_core", "dicom_core::dictionary::data_element::TagRange", "inner")
+    ms = [m for m in H.walk(h["body"]) if H.kind(m) == "match" and H.path_of(H.peel(m[2])) == "self"]
+    if len(ms) != 1:
+        raise facts.MissingAnchor("TagRange::inner: match self")
+    for p, g, b, ln in H.match_arms(ms[0]):
+        hd = H.pat_head(H.pat_alts(p)[0])
+        v = hd[1].split("::")[-1] if hd[0] == "variant" else "?"
+        if v not in ("Single", "Group100", "Element100"):
+            continue
+        t = H.show(H.peel(b), 6).replace("dicom_core::header::", "")
+        ok = t == "tag"
+        if v == "Group100":
+            ok = ok or t == "Tag((tag.0 BitAnd 65280), tag.1)"
+        if v == "Element100":
+            ok = ok or t == "Tag(tag.0, (tag.1 BitAnd 65280))"
+        chk.expect(ok, rule, "TagRange::inner", v, "the wrapped tag (own component masked at most)", t, loc=f"{h['loc']['f']}:{ln}")
+
+
 def writer_text_identity(chk, fx, rule):
     """StatefulEncoder::convert_text_untrailed encodes the given text as it is (C04 exact lengths; C31: the command group length is
     computed from the in-memory text lengths, so the writer must not shorten or lengthen a value beyond the even-length pad)"""
